@@ -16,7 +16,8 @@ RULE = ('(a) complete placement: the child prints 5 or 2500 bytes and exits, the
         'and multi-byte text (incl. the escape byte), EINTR. Ninth round: pending output produced by REAL reads whose search buffer an earlier bounded search trimmed (all of it is due on the display; C15.pending_again: with the buffer attribute empty the next call must not hand it back); an escape character without a Latin-1 byte (only the terminal mode is judged); interact() abandoned from outside (terminal mode). Tenth round: pending multi-byte text that stops inside a character (the bytes held by the decoder are due on the display and in the log of the session), an outer terminal that is non-canonical with its own VMIN/VTIME. Non-trivial: >= 1 byte typed or printed; distinct by trace digest')
 
 ASSUME = ['with several escape characters in one read any one of them may end the session (the statement does not fix which)',
-          'the user starts typing >= 200 us after interact() was entered (raw mode is set within the first four calls)']
+          'the user starts typing >= 200 us after interact() was entered (raw mode is set within the first four calls)',
+          'exceptions from outside (Ctrl-C, a raising signal handler) are injected only where the code under test really waits (select, poll, recv, sleep, a blocking waitpid): between two arbitrary bytecodes no code can promise anything and nothing is judged there']
 
 
 def nontrivial(scn, info):
